@@ -32,10 +32,11 @@ T_SPEC = {
     ('ops::delay::DelayObserverThreads', 'error'): (None, 'error'),
     ('ops::delay::DelayObserverThreads', 'complete'): ('delay', 'S.complete'),
     ('ops::observe_on::ObserveOnObserver', 'next'): ('none', 'S.next'),
-    ('ops::observe_on::ObserveOnObserver', 'error'): ('none', 'S.error'),
+    # (the statement allows a prefix of the items when the source fails: the error may be scheduled like an item or, as in delay, go out at once)
+    ('ops::observe_on::ObserveOnObserver', 'error'): ('none', 'S.error | error'),
     ('ops::observe_on::ObserveOnObserver', 'complete'): ('none', 'S.complete'),
     ('ops::observe_on::ObserveOnObserverThreads', 'next'): ('none', 'S.next'),
-    ('ops::observe_on::ObserveOnObserverThreads', 'error'): ('none', 'S.error'),
+    ('ops::observe_on::ObserveOnObserverThreads', 'error'): ('none', 'S.error | error'),
     ('ops::observe_on::ObserveOnObserverThreads', 'complete'): ('none', 'S.complete'),
 }
 SUB_SPEC = {
@@ -106,7 +107,9 @@ def t2(cx):
                             'from_millis', 'from_secs', 'from_micros', 'from_nanos', 'new', 'from_secs_f32', 'from_secs_f64'):
                         if any(mentions(a, lambda e: e[0] == 'call' and e[1].startswith('std::time::Duration::') and e[1].rsplit('::', 1)[-1] in TRUNC and e[2]
                                         and any(mentions(e[2][0], lambda y, v=v: strip(y) == v) for v in gv)) for a in x['args']):
-                            short = x
+                            lossless = x['name'].endswith('::new') and any(mentions(a, lambda e: e[0] == 'call' and e[1].endswith('Duration::subsec_nanos')) for a in x['args'])
+                            if not lossless:      # Duration::new(d.as_secs(), d.subsec_nanos()) rebuilds d exactly
+                                short = x
             if short is not None:
                 res.append(Finding(ID, 'T2', label, False,
                                    'the time left until the deadline is shortened again before it is used as the delay (%s): the first event can come before the requested instant' % render(short['value'])[:80],
@@ -171,7 +174,7 @@ def t34(cx):
             scheds = [n for n in g.nodes if n['kind'] in ('call', 'enter') and n['name'] == SCHEDULE]
             if want_delay is not None:
                 ops = sorted({_delay_operand(n) for n in scheds})
-                ok = ops == [want_delay]
+                ok = ops == [want_delay] or (not scheds and '| error' in word)
                 res.append(Finding(ID, 'T4', label, ok,
                                    'schedules with delay = %s' % ops if ok else 'the task is scheduled with delay %s, expected %s' % (ops, 'Some(self.delay)' if want_delay == 'delay' else 'None'),
                                    fn['span'], [node_desc(g, n) for n in scheds]))
